@@ -68,9 +68,9 @@ CHECKS = {
             "Hierarchical completion of the engine under parallel composition is decided by the monitor on engine traces (parallel shapes, every action in one branch "
             "while siblings are open, keep_processes on/off), not by an operational proof.", "5 C03"),
     "C06": ("Lean 4 K2 theorems over every catch list and every ancestor chain (first matching catch wins; the nearest open member with an unused matching catch "
-            "takes the error, members below are marked, members above untouched; uncaught => all marked; once-flag; non-matching catch is a no-op) + K1 on the emit "
+            "takes the error, members below are marked, members above untouched; uncaught => all marked; once-flag; non-matching catch is a no-op), K3 over every history of errors (Catch.run: at most one catch per task, none after an error passed through it; a declared matching catch on an open chain takes the error) + K1 on the emit "
             "and hook tables; every error action of generated runs is checked against Catch.bubble evaluated on the engine's own pre-error chain, plus catch-step "
-            "multiplicity at the end of the run and whole-run correspondence with the operational model",
+            "multiplicity at the end of the run, a whole-run monitor that no task instance is revived by its catch twice, and whole-run correspondence with the operational model",
             "Catch.bubble is a transcription of emit_error + the catch hook; the tie is the per-error comparison of transitions, revives, started catch steps and error "
             "events with its prediction. That the catching task then completes and the flow continues is carried by the operational model correspondence.", "5 C06"),
     "C08": ("Lean 4 K1 theorems over the translated emit predicate and message-state map (emitted iff not pending/running/disabled and state unchanged by the hooks; "
